@@ -202,14 +202,38 @@ def check_dispatch(ctx, rule='TBL'):
             'deduce_layout considers the four meaningful layouts by default',
             detail_bad=f"default candidates {cands}", key=f"{rule}|deduce_layout|candidates")
     menv = ctx.fold.module_env(fi.module.name)
-    rets = set()
+    rets, unknown_rets = set(), []
+
+    def leaves(e):
+        if isinstance(e, ast.IfExp):
+            yield from leaves(e.body)
+            yield from leaves(e.orelse)
+        elif isinstance(e, ast.BoolOp):
+            for v_ in e.values:
+                yield from leaves(v_)
+        else:
+            yield e
     for node in walk_local(fi.node):
         if isinstance(node, ast.Return) and node.value is not None:
-            v = ctx.fold.eval(node.value, menv, fi.module.name)
-            rets.add(norm(node.value) if is_unknown(v) else v)
-    rets.discard('layout_guess')
-    ctx.check(rets <= set(cl['names'].values()), rule, 'deduce_layout returns only implemented layouts',
-              detail_bad=f"returns {sorted(map(str, rets))}", key=f"{rule}|deduce_layout|returns")
+            for leaf in leaves(node.value):
+                v = ctx.fold.eval(leaf, menv, fi.module.name)
+                if is_unknown(v):
+                    if isinstance(leaf, ast.Name):
+                        # a local that only ever holds layout constants
+                        vals = [ctx.fold.eval(a.value, menv, fi.module.name) for a in walk_local(fi.node)
+                                if isinstance(a, ast.Assign) and norm(a.targets[0]) == leaf.id]
+                        if vals and not any(is_unknown(x) for x in vals):
+                            rets.update(vals)
+                            continue
+                    unknown_rets.append(norm(leaf))
+                else:
+                    rets.add(v)
+    known_bad = {r for r in rets if isinstance(r, str)} - set(cl['names'].values())
+    if unknown_rets and not known_bad:
+        ctx.undecided(rule, 'deduce_layout returns only implemented layouts', f"return values {unknown_rets} do not fold")
+    else:
+        ctx.check(not known_bad, rule, 'deduce_layout returns only implemented layouts',
+                  detail_bad=f"returns {sorted(map(str, known_bad))}", key=f"{rule}|deduce_layout|returns")
     # S_desc_TR / desc_STR only when the section word precedes the Twp/Rge
     ok = False
     for node in walk_local(fi.node):
